@@ -4,6 +4,7 @@ import SignaloModel.Proofs.DequeSuffix
 import SignaloModel.Proofs.OwnedDeque
 import SignaloModel.Proofs.DequeExact
 import SignaloModel.Proofs.DequeBracket
+import SignaloModel.Proofs.DequeExactFrom
 /-!
 # C04 — Moving min/max/bounds equal the extrema of the last min(k,N) samples
 
@@ -12,6 +13,7 @@ The property theorems for C04: `#check` prints each statement, `#print axioms` i
 -/
 open SignaloModel
 
+#check @SignaloModel.Deque.taps_exact_from
 #check @SignaloModel.Deque.minmax_bracket
 #check @SignaloModel.Deque.taps_exact_run
 #check @SignaloModel.Deque.taps_length_run
@@ -27,6 +29,7 @@ open SignaloModel
 #check @Deque.stepU_correct
 #check @Deque.tick_rel
 
+#print axioms SignaloModel.Deque.taps_exact_from
 #print axioms SignaloModel.Deque.minmax_bracket
 #print axioms SignaloModel.Deque.taps_exact_run
 #print axioms SignaloModel.Deque.taps_length_run
